@@ -324,6 +324,11 @@ def explore(run, pre_builder, max_paths=400, budget_ms=4000):
 def prove(assumptions, goal, timeout_ms=20000):
     """returns ('unsat', None) | ('sat', model) | ('unknown', reason)"""
     t0 = time.time()
+    try:
+        import os
+        timeout_ms = int(timeout_ms * min(6.0, max(1.0, os.getloadavg()[0] / 6.0)))     # wall-clock budgets stretch under load
+    except OSError:
+        pass
     s = z3.Solver()
     s.set("timeout", timeout_ms)
     s.add(*assumptions, z3.Not(goal))
